@@ -75,6 +75,10 @@ class Server(object):
     def on_send(self, message, cb):
         carried = message.paging_state
         self.sent.append(carried)
+        if len(self.sent) > 3 * len(self.pages) + 6:
+            # a driver that keeps asking (e.g. for the same page) must not hang the check: refuse; the request then
+            # fails with NoHostAvailable and the oracle reports the surplus requests
+            raise RuntimeError('scripted server: too many requests')
         self.pending.append((cb, carried))
         if self.eager:
             self.deliver_one()
